@@ -111,9 +111,10 @@ PL_FillDeltas == {One, R(-1, 2)}
 (***************************************************************************)
 Subst5 == {"W", "D", "N", "M", "E"}
 C5(w, d, n, m, e) == [W |-> w, D |-> d, N |-> n, M |-> m, E |-> e]
-SOL_Names == {"v", "z", "k1", "k2", "k3", "o"}
+SOL_Names == {"v", "v2", "z", "k1", "k2", "k3", "o"}
 SOL_Shape == [n \in SOL_Names |-> <<0, 0>>]
 SOL_Init == {[v  |-> Cont(Inf, C5(I(16), I(1), Zero, Zero, Zero)),    \* solvent container with a bystander (D)
+              v2 |-> Cont(Inf, C5(I(12), Zero, Zero, I(1), Zero)),    \* solvent container with a dissolved solid (M)
               z  |-> Cont(Inf, C5(I(2), Zero, Zero, Zero, Zero)),     \* solvent container that is too small
               k1 |-> Cont(Inf, C5(I(10), Zero, I(2), Zero, Zero)),    \* binary stock
               k2 |-> Cont(Inf, C5(I(8), I(1), I(2), Zero, Zero)),     \* ternary stock
@@ -123,11 +124,13 @@ NumUnits(s) == IF IsEnzyme(s) THEN {"U", "g", "L"} ELSE {"mol", "g", "L"}
 DenUnits == {"mol", "g", "L"}
 QtyUnits(s) == IF IsEnzyme(s) THEN {"U", "g", "L"} ELSE {"mol", "g", "L"}
 \* a solvent container never holds one of the solutes (what "quantity of solute" means would be ambiguous)
-SolSolvents(sols) == ({"W", "D", "v", "z"} \ {sols[i] : i \in DOMAIN sols})
-                       \ (IF \E i \in DOMAIN sols : sols[i] = "D" THEN {"v"} ELSE {})
-SC(sols, solvent, xs, xsolv, given, nu, du, qu, tu) ==
+SolSolvents(sols) == (({"W", "D", "v", "v2", "z"} \ {sols[i] : i \in DOMAIN sols})
+                       \ (IF \E i \in DOMAIN sols : sols[i] = "D" THEN {"v"} ELSE {}))
+                       \ (IF \E i \in DOMAIN sols : sols[i] = "M" THEN {"v2"} ELSE {})
+SCk(sols, solvent, xs, xsolv, given, nu, du, qu, tu, skew) ==
   [n |-> "o", solutes |-> sols, solvent |-> solvent, xs |-> xs, xsolv |-> xsolv, given |-> given,
-   nu |-> nu, du |-> du, qu |-> qu, tu |-> tu]
+   nu |-> nu, du |-> du, qu |-> qu, tu |-> tu, skew |-> skew]
+SC(sols, solvent, xs, xsolv, given, nu, du, qu, tu) == SCk(sols, solvent, xs, xsolv, given, nu, du, qu, tu, One)
 \* one solute: every unit combination that the stated pair of inputs involves
 Sol1(quick) ==
   UNION {UNION {
@@ -139,14 +142,16 @@ Sol1(quick) ==
     \cup {SC(sols, solvent, <<x>>, xsolv, "qt", <<"g">>, <<"g">>, <<qu>>, tu) :
         x \in {One, I(2)}, xsolv \in {I(6), I(-1)}, qu \in QtyUnits(s), tu \in DenUnits}
     : solvent \in SolSolvents(<<s>>)} : s \in {"N", "D", "E"}}
-\* two solutes with per-solute values
+\* two solutes with per-solute values: per-solute numerator AND denominator units (an earlier solute's denominator
+\* unit may be a later solute's numerator unit), and - for the over-determined "cq" - inconsistent quantities
 Sol2 ==
   UNION {UNION {
-    {SC(sols, solvent, <<One, I(2)>>, xsolv, given, nus, <<du, du>>, qus, tu) :
+    {SCk(sols, solvent, <<One, I(2)>>, xsolv, given, nus, dus, qus, tu, skew) :
         xsolv \in {I(8), I(-1)}, given \in {"cq", "ct", "qt"},
-        nus \in {<<"mol", "mol">>, <<"g", IF IsEnzyme(sols[2]) THEN "U" ELSE "L">>},
-        du \in {"L", "g"},
-        qus \in {<<"g", IF IsEnzyme(sols[2]) THEN "U" ELSE "mol">>}, tu \in {"L", "g"}}
+        nus \in {<<"mol", "mol">>, <<"g", IF IsEnzyme(sols[2]) THEN "U" ELSE "L">>, <<"mol", "g">>},
+        dus \in {<<"L", "L">>, <<"g", "g">>, <<"g", "L">>, <<"L", "g">>},
+        qus \in {<<"g", IF IsEnzyme(sols[2]) THEN "U" ELSE "mol">>}, tu \in {"L", "g"},
+        skew \in {One, R(3, 2), R(1, 2)}}
     : solvent \in SolSolvents(sols) \ {"D", "z"}} : sols \in {<<"N", "D">>, <<"N", "E">>, <<"N", "M">>}}
 SOL_CasesQuick == Sol1(TRUE) \cup {c \in Sol2 : c.tu = "L"}
 SOL_Cases == Sol1(FALSE) \cup Sol2
